@@ -174,6 +174,11 @@ op("rdivmod", ["Knum", "pos"], ["rtup2"], "divmod({0}, {1})", lambda a, b: divmo
 op("pow_k", ["pos", "Ksmallint"], ["num"], "({0} ** {1})", lambda a, b: a ** b)
 op("pow", ["pos", "idx"], ["num"], "({0} ** {1})", lambda a, b: a ** b)
 op("rpow", ["Kpos", "num"], ["num"], "({0} ** ({1} / 8))", lambda a, b: a ** (b / 8))
+op("pow3", ["int"], ["num", "int"], "pow({0}, 2, 5)", lambda a: pow(a, 2, 5))
+op("ori_kw", ["num"], ["ori"], "Orientation.fromEuler(0.25, 0.5, roll={0})", lambda a: _O(0.25, 0.5, a))
+op("round_kw", ["num"], ["num", "int"], "round(number={0})", lambda a: round(number=a))
+op("round_nd_kw", ["idx"], ["num"], "round(2.34567, ndigits={0})", lambda i: round(2.34567, ndigits=i))
+op("str_list", ["num", "num"], ["str"], "str([{0}, {1}])[0]", lambda a, b: "[")
 op("neg", ["num"], ["num"], "(-{0})", lambda a: -a)
 op("upos", ["num"], ["num"], "(+{0})", lambda a: +a)
 op("abs", ["num"], ["num"], "abs({0})", lambda a: abs(a))
@@ -398,6 +403,27 @@ sop("lz_method", ["num"], "Uniform(BOXES[0], BOXES[0]).scale({0}, LZ)",
 sop("lz_method_kw", ["obj", "num"], "{0}.scale({1}, factor=LZ)", lambda z, o, a: o.scale(a, factor=z))
 sop("lz_index", ["rtup"], "{0}[DiscreteRange(1, LZ * 0 + 1.5)]", lambda z, t: t[1])
 sop("lz_str", [], "str(LZ)", lambda z: str(z))
+# an int-valued lazy value combined with a float: needs the reflected operator
+sop("lz_int_add", [], "(round(LZ) + 0.5)", lambda z: round(z) + 0.5)
+sop("lz_int_mul", ["num"], "(round(LZ) * 1.5 + {0})", lambda z, a: round(z) * 1.5 + a)
+sop("lz_int_rsub", [], "(0.25 - round(LZ))", lambda z: 0.25 - round(z))
+# constant Vector combined with a lazily evaluated Vector
+sop("lz_vconst_add", [], "(Vector(1, 2, 3) + Vector(LZ, 0, 0))", lambda z: _V(1 + z, 2, 3))
+sop("lz_vconst_sub", [], "(Vector(1, 2, 3) - Vector(0, LZ, 0)).y", lambda z: 2 - z)
+sop("lz_vrand_add", ["num"], "(Vector({0}, 2, 3) + Vector(LZ, 0, 0)).x", lambda z, a: a + z)
+# constant Vector operated with a lazily evaluated orientation (LZO = the lazy orientation itself)
+sop("lz_vconst_rot", [], "Vector(0, 2, 0).applyRotation(LZO).x", lambda z: -2 * math.sin(z))
+sop("lz_vconst_rotby", [], "Vector(0, 2, 1).rotatedBy(LZO).y", lambda z: 2 * math.cos(z))
+sop("lz_vconst_offset", [], "Vector(1, 1, 0).offsetRotated(LZO, Vector(0, 2, 0)).x",
+    lambda z: 1 - 2 * math.sin(z))
+# the only lazy / random argument of a lifted function passed by keyword
+sop("lz_ori_kw", [], "Orientation.fromEuler(0.25, 0.5, roll=LZ).roll",
+    lambda z: _O(0.25, 0.5, z).roll)
+sop("lz_round_kw", ["num"], "round(number=LZ + {0})", lambda z, a: round(number=z + a))
+# containers with a lazy element passed through a lifted function keep their type
+sop("lz_str_list", ["num"], "str([{0}, LZ])[0]", lambda z, a: "[")
+sop("lz_str_nt", ["num"], "str(Pair({0}, LZ))[0:4]", lambda z, a: "Pair")
+sop("lz_len_list", ["num"], "str([{0}, (LZ, 1)])[-1]", lambda z, a: "]")
 
 KCONST = {
     "Klo": st.integers(-40, 40).map(lambda k: k / 4),
@@ -458,11 +484,14 @@ def emit(case):
         withs = "".join(f", with {s['n']} {expr_text(s, lambda n: n)}" for s in lz["withs"])
         cls = "K"
     if sp:
-        at = "(Range(0, 10), Range(-5, 5))"
+        # a fixed position makes LZ a lazily evaluated *constant* (plain Python values at
+        # evaluation time); a random one makes it a lazily evaluated distribution
+        at = "(3.0, -2.0)" if sp.get("fixed") else "(Range(0, 10), Range(-5, 5))"
         LZ = f"({lit(sp['k'])} relative to vf).yaw"
         withs += f", with lz {LZ}"
         for s in sp["items"]:
-            withs += f", with {s['n']} " + expr_text(s, lambda n: n).replace("LZ", LZ)
+            withs += f", with {s['n']} " + expr_text(s, lambda n: n).replace(
+                "LZO", f"({lit(sp['k'])} relative to vf)").replace("LZ", LZ)
     lines.append(f"ego = new {cls} at {at}{withs}")
     return "\n".join(lines) + "\n"
 
@@ -981,7 +1010,8 @@ def programs(draw):
             cands = [n for n in SPEC_OPS if available(n)]
             nm = draw(st.sampled_from(cands))
             items.append({"n": f"b{i}", "op": nm, "a": make_args(nm)})
-        spec = {"k": draw(st.integers(-8, 8).map(lambda k: k / 4)), "items": items}
+        spec = {"k": draw(st.integers(-8, 8).map(lambda k: k / 4)), "items": items,
+                "fixed": draw(st.integers(0, 2)) == 0}
     return {"seed": draw(st.integers(0, 2 ** 31)), "mode2D": draw(st.sampled_from([False, False, True])),
             "stmts": stmts, "lazy": lazy, "spec": spec}
 
